@@ -733,6 +733,11 @@ fn x1_path(p: &mut syn::Path, qself: &mut Option<syn::QSelf>) -> bool {
             *p = np;
             return true;
         }
+        // X1: the primitive `f64` as a type (a local's annotation, a turbofish) -> the F64 of the prelude
+        "f64" if n == 1 => {
+            rename_first(p, "F64");
+            return true;
+        }
         // X1: String / str -> the abstract name type of the prelude
         "String" | "str" if n == 1 => {
             rename_first(p, "Name");
